@@ -430,7 +430,27 @@ pub fn run_intr(out: &mut Out, seed: u64, n: u64) {
     let budget = if n >= 100_000 { 5 } else { 4 };
     let all = progs(budget);
     let mut count = 0u64;
+    // other RFLAGS bits must not matter: a third of the programs run with the ID flag (bit 21,
+    // freely writable in ring 3) set
+    fn set_id(on: bool) {
+        unsafe {
+            core::arch::asm!(
+                "pushfq",
+                "pop {t}",
+                "and {t}, {clr}",
+                "or {t}, {set}",
+                "push {t}",
+                "popfq",
+                t = out(reg) _,
+                clr = in(reg) !(1u64 << 21),
+                set = in(reg) if on { 1u64 << 21 } else { 0 },
+            );
+        }
+    }
+    let mut nrun = 0u64;
     let mut run = |p: &Vec<St>, init: u64, out: &mut Out| {
+        nrun += 1;
+        set_id(nrun % 3 == 0);
         set_if(init);
         sync_overlay();
         cpu::drain();
@@ -438,6 +458,7 @@ pub fn run_intr(out: &mut Out, seed: u64, n: u64) {
         for s in p {
             run_st(s);
         }
+        set_id(false);
         IOUT.with(|o| {
             for l in o.borrow_mut().drain(..) {
                 out.emit_line(&l);
